@@ -73,7 +73,49 @@ def run_pools(profile, rec, known, n_examples, hseed):
             cls.add('pool-early-stop')
         rec.case(dict(case, part='pools'), bool(nt), cls, size=case['n'])
 
-    return drive(check, W.st_pool_case(profile), n_examples, rec, known, hseed, shrink=False)
+    # a fixed set of cases for every backend first (each backend meets each sub-oracle at least once), then random ones
+    from ..common import Outcome
+    out = Outcome()
+    for case in fixed_pool_cases(profile):
+        try:
+            check(case)
+        except Violation as v:
+            if known.match(v.sig):
+                rec.known_hits[v.sig.split('|')[0]] += 1
+                continue
+            out.violation = (case, v.sig, v.detail)
+            return out
+    o2 = drive(check, W.st_pool_case(profile), n_examples, rec, known, hseed, shrink=False)
+    return o2
+
+
+def fixed_pool_cases(profile):
+    from .. import workers as W
+    cases = []
+    for be in W.BACKENDS:
+        if profile == 'plain':
+            cases.append({'backend': be, 'api': 'lpm', 'n': 5, 'workers': 2, 'buffer': 3, 'delays': [8, 0, 4, 0, 1]})
+            cases.append({'backend': be, 'api': 'pm', 'n': 5, 'workers': 3, 'buffer': 3, 'delays': [8, 0, 4, 0, 1],
+                          'with_key': True})
+            cases.append({'backend': be, 'api': 'pf', 'n': 12, 'workers': 2, 'buffer': 4,
+                          'delays': [4, 0, 0, 8, 0, 1, 0, 0, 2, 0, 0, 0], 'src': 'dict'})
+        elif profile == 'stop':
+            for api in ('lpm', 'pm', 'pf'):
+                cases.append({'backend': be, 'api': api, 'n': 30, 'workers': 2, 'buffer': 16, 'delays': [30] * 30,
+                              'stop': 2, 'markers': True, 'check_cancel': True})
+            cases.append({'backend': be, 'api': 'pf', 'n': 12, 'workers': 2, 'buffer': 2, 'delays': [20] * 12,
+                          'stop': 1, 'markers': True, 'check_cancel': False})
+        elif profile == 'fault':
+            cases.append({'backend': be, 'api': 'lpm', 'n': 5, 'workers': 2, 'buffer': 3, 'delays': [8, 0, 4, 0, 1],
+                          'fn_fail': {'2': 'VErrB'}})
+            cases.append({'backend': be, 'api': 'pm', 'n': 5, 'workers': 2, 'buffer': 4, 'delays': [0, 8, 0, 0, 0],
+                          'fn_fail': {'1': 'VErrC', '3': 'VErrA'}})
+            if be in ('t', 'mp', 'dill_mp'):
+                cases.append({'backend': be, 'api': 'pf', 'n': 5, 'workers': 2, 'buffer': 2, 'delays': [2, 8, 0, 4, 0],
+                              'fn_fail': {'0': 'VErrC', '3': 'VErrA'}, 'catch': ['VErrA', 'VErrC']})
+                cases.append({'backend': be, 'api': 'pf', 'n': 5, 'workers': 2, 'buffer': 2, 'delays': [2, 8, 0, 4, 0],
+                              'fn_fail': {'1': 'VErrB', '3': 'VErrC'}, 'catch': 'VErrA'})
+    return cases
 
 
 def run_dfs(workloads, judge, nontrivial, rec, known, idx, nshards):
